@@ -975,6 +975,8 @@ class TreeTransform(Generic[TreeFnT]):
       if type(fn) is tree_fns.TreeFn or isinstance(fn, tree_fns.Select):  # pylint: disable=unidiomatic-typecheck
         result = set()
       result.update(itertools.chain(non_dict_keys, *dict_keys))
+    # A skipped output is written nowhere, SKIP is a placeholder and no key.
+    result.discard(tree.Key.SKIP)
     return result
 
   @property
@@ -993,7 +995,15 @@ class TreeTransform(Generic[TreeFnT]):
   ):
     """Checks the assign keys are valid."""
     non_dict_keys, dict_keys = mit.partition(_is_dict, assign_keys)
-    new_keys = set(itertools.chain(non_dict_keys, *dict_keys))
+    # A skipped output is written nowhere, SKIP is a placeholder and no key.
+    flat_keys = [
+        key
+        for key in itertools.chain(non_dict_keys, *dict_keys)
+        if key != tree.Key.SKIP
+    ]
+    new_keys = set(flat_keys)
+    if len(new_keys) != len(flat_keys):
+      raise KeyError(f'Duplicate output_keys within {assign_keys}.')
     if exisiting_keys is None:
       exisiting_keys = self.output_keys
     if conflicting_keys := new_keys.intersection(exisiting_keys):
